@@ -663,3 +663,34 @@ func (ts *typestate) describe(r *core.Report) {
 	}
 	r.Extra["transition_samples"] = sample
 }
+
+// checkAppImpliesReady: Channel.Deliver judges the peer's key on the not-ready -> ready edge of a
+// session delivery and only then hands out application data. That is sound only if a session that
+// returns application data is ready afterwards: otherwise data from a never-judged (prospective)
+// session reaches the application and the session is never promoted.
+func (ts *typestate) checkAppImpliesReady(rule string) {
+	r := ts.r
+	n := 0
+	for _, t := range ts.trans {
+		if t.out.Panic || !strings.HasPrefix(t.op, "Deliver") {
+			continue
+		}
+		if t.isApp.K == core.ABool && !t.isApp.B {
+			continue
+		}
+		if t.errVal.K == core.ANonNil {
+			continue
+		}
+		n++
+		ready, ok := ts.evalBool(ts.isReady, t.to)
+		c := fmt.Sprintf("%s --%s[%s]--> %s", t.from, t.op, labelsOf(t.out), t.to)
+		if !ok {
+			r.Undecided(rule, c, "-", "IsReady is not a pure function of the tracked state")
+			continue
+		}
+		r.Check(ready, rule, c, r.P.Pos(ts.deliver.Pos()), "a delivery that returns application data leaves the session ready", "Session.Deliver returns application data from state "+t.from.String()+" but leaves the session not ready ("+t.to.String()+"): the channel's readiness re-check, where the peer's key is judged and the session promoted, never runs for it, yet the data is handed to the application")
+	}
+	if n == 0 {
+		r.Fail("%s: no transition of the extracted machine returns application data (extraction stale)", rule)
+	}
+}
